@@ -59,9 +59,11 @@ def _abstract_outcomes(fn, facts):
     outs = []
 
     def ev(test):
-        t = " ".join(src(test).split())
+        t = _canon_test(test)
         if t in facts:
             return facts[t]
+        if t.startswith("not ") and t[4:] in facts:
+            return not facts[t[4:]]
         if isinstance(test, ast.UnaryOp) and isinstance(test.op, ast.Not):
             v = ev(test.operand)
             return None if v is None else (not v)
@@ -130,6 +132,22 @@ def _exc_name(r):
     if isinstance(e, ast.Call):
         e = e.func
     return dotted(e) or src(e)
+
+
+def _canon_test(test):
+    """Spelling-independent text of the atoms the accessors branch on."""
+    t = " ".join(src(test).split())
+    t = t.replace("self.get_is_leaf()", "self._is_leaf")
+    for a in ("self._value", "self._dual_variable_value"):
+        t = t.replace("%s == None" % a, "%s is None" % a).replace("None is %s" % a, "%s is None" % a).replace("None == %s" % a, "%s is None" % a)
+        t = t.replace("%s != None" % a, "%s is not None" % a).replace("None is not %s" % a, "%s is not None" % a)
+        if t == "%s is not None" % a:
+            return "not %s is None" % a
+    if t in ("self._is_leaf is True", "self._is_leaf == True"):
+        return "self._is_leaf"
+    if t in ("self._is_leaf is False", "self._is_leaf == False", "not self._is_leaf"):
+        return "not self._is_leaf"
+    return t
 
 
 ACCESSORS = [("Point", "eval", "leaf"), ("Expression", "eval", "leaf"), ("Constraint", "eval", "wrap"),
